@@ -1873,14 +1873,19 @@ class UTPM(Ring, RawAlgorithmsMixIn):
             return tmp
 
         else:
-            retval = numpy.zeros((N,N))
+            # the symmetric tensor of all d-th order partial derivatives, shape (N,)*d + shape of the value
+            # (for d = 2 the Hessian): entry (i_1,...,i_d) is alpha! times the packed entry of its multi-index alpha
+            retval = numpy.zeros((N,)*d + tmp.shape[1:], dtype=tmp.dtype)
             mi = exint.generate_multi_indices(N,d)
             pos = exint.convert_multi_indices_to_pos(mi)
 
             for ni in range(mi.shape[0]):
                 # print 'ni=',ni, mi[ni], pos[ni], tmp[ni]
+                fact = 1
+                for m in mi[ni]:
+                    fact *= exint.factorial(int(m))
                 for perm in exint.generate_permutations(list(pos[ni])):
-                    retval[perm[0],perm[1]] = tmp[ni]*numpy.max(mi[ni])
+                    retval[tuple(perm)] = tmp[ni]*fact
 
             return retval
 
